@@ -1,0 +1,119 @@
+//go:build verif
+
+package pathbadger
+
+import (
+	"encoding/binary"
+	"fmt"
+
+	"github.com/dgraph-io/badger/v4"
+
+	"github.com/oasisprotocol/oasis-core/go/common/cbor"
+	"github.com/oasisprotocol/oasis-core/go/storage/mkvs/db/api"
+	"github.com/oasisprotocol/oasis-core/go/storage/mkvs/node"
+)
+
+// VerifUpdatedNode is one entry of a root's updated-nodes index with the node stored for it.
+type VerifUpdatedNode struct {
+	Removed bool
+	Version uint64
+	Index   uint32
+	Node    VerifStoredNode
+}
+
+// VerifCommittedBatch is a read-only view of what a just committed (not yet finalized) root left
+// in the database.
+type VerifCommittedBatch struct {
+	SeqNo    uint16
+	HasSeqNo bool
+	Updated  []VerifUpdatedNode
+	RootNode VerifStoredNode
+	// RawLog is the stored (cbor) internal write log for (startRoot, endRoot), nil if none.
+	RawLog []byte
+	Log    [][]byte
+}
+
+// VerifReadCommittedBatch reads the sequence number, the updated-nodes index (with the nodes at
+// those positions), the root node and the stored internal write log of endRoot. It only reads.
+func VerifReadCommittedBatch(ndb api.NodeDB, startRoot, endRoot node.Root) (*VerifCommittedBatch, error) {
+	d, ok := ndb.(*badgerNodeDB)
+	if !ok {
+		return nil, fmt.Errorf("not a pathbadger node database")
+	}
+	tx := d.db.NewTransactionAt(versionToTs(endRoot.Version), false)
+	defer tx.Discard()
+
+	startRootHash := api.TypedHashFromRoot(startRoot)
+	endRootHash := api.TypedHashFromRoot(endRoot)
+	out := &VerifCommittedBatch{}
+	out.SeqNo, out.HasSeqNo = d.meta.getPendingRootSeqNo(endRoot.Version, endRootHash)
+
+	if item, err := tx.Get(rootNodeKeyFmt.Encode(endRoot.Version, &endRootHash)); err == nil {
+		if out.RootNode, err = verifDescribe(item); err != nil {
+			return nil, err
+		}
+	}
+
+	var updated []updatedNode
+	item, err := tx.Get(rootUpdatedNodesKeyFmt.Encode(endRoot.Version, &endRootHash))
+	switch err {
+	case nil:
+		if err = item.Value(func(data []byte) error {
+			return cbor.UnmarshalTrusted(data, &updated)
+		}); err != nil {
+			return nil, err
+		}
+	case badger.ErrKeyNotFound:
+	default:
+		return nil, err
+	}
+	for _, un := range updated {
+		if len(un.Key) != 8+4 {
+			return nil, fmt.Errorf("unexpected position key length %d", len(un.Key))
+		}
+		e := VerifUpdatedNode{
+			Removed: un.Removed,
+			Version: binary.BigEndian.Uint64(un.Key[0:8]),
+			Index:   binary.BigEndian.Uint32(un.Key[8:12]),
+		}
+		if !un.Removed {
+			var key []byte
+			if out.SeqNo == 0 {
+				key = finalizedNodeKeyFmt.Encode(byte(endRoot.Type), un.Key)
+			} else {
+				key = pendingNodeKeyFmt.Encode(endRoot.Version, byte(endRoot.Type), out.SeqNo, un.Key)
+			}
+			item, err = tx.Get(key)
+			switch err {
+			case nil:
+				if e.Node, err = verifDescribe(item); err != nil {
+					return nil, err
+				}
+			case badger.ErrKeyNotFound:
+			default:
+				return nil, err
+			}
+		}
+		out.Updated = append(out.Updated, e)
+	}
+
+	item, err = tx.Get(writeLogKeyFmt.Encode(endRoot.Version, &endRootHash, &startRootHash))
+	switch err {
+	case nil:
+		if err = item.Value(func(data []byte) error {
+			out.RawLog = append([]byte{}, data...)
+			var log internalWriteLog
+			if uerr := cbor.UnmarshalTrusted(data, &log); uerr != nil {
+				return uerr
+			}
+			out.Log = log
+			return nil
+		}); err != nil {
+			return nil, err
+		}
+	case badger.ErrKeyNotFound:
+	default:
+		return nil, err
+	}
+	return out, nil
+}
